@@ -96,10 +96,14 @@ theorem AuxAgree.get {n lo hi : Nat} {aux aux' : List Nat} (h : AuxAgree n lo hi
 def Sim2 (c : Ctx) (n nS : Nat) (prog : List Insn) (lo hi : Nat) (bal cm : Bool) (sm : St → List St) (a b : Nat) : Prop :=
   ∀ (st : St) (aux astk : List Nat) (X : List SBranch) (succ : St → Ans → Ans) (failA : Ans),
     st.Good c n → n + aux.length = nS → SuccOK cm succ →
-    Big2 c prog nS (.fail X) failA →
-    (∀ r, r ∈ sm st → ∀ (aux' junk : List Nat) (S : List SBranch) (acc : Ans),
+    -- what failing into `X` yields: only demanded if every result passes the failure through
+    ((∀ acc, (sm st).foldr succ acc = acc) → Big2 c prog nS (.fail X) failA) →
+    -- the continuation: only demanded for results that are *reached* (all earlier ones pass the
+    -- failure through); what failing back yields is only demanded if this one passes it through too
+    (∀ l1 r l2, sm st = l1 ++ r :: l2 → (∀ acc, l1.foldr succ acc = acc) →
+      ∀ (aux' junk : List Nat) (S : List SBranch) (acc : Ans),
         AuxAgree n lo hi aux aux' → (bal = true → junk = []) → (∀ br ∈ S, a ≤ br.pc ∧ br.pc ≤ b) →
-        Big2 c prog nS (.fail (S ++ X)) acc →
+        ((∀ acc', succ r acc' = acc') → Big2 c prog nS (.fail (S ++ X)) acc) →
         Big2 c prog nS (.run b r.ix (unview r.slots ++ aux') (junk ++ astk) (S ++ X)) (succ r acc)) →
     Big2 c prog nS (.run a st.ix (unview st.slots ++ aux) astk X) ((sm st).foldr succ failA)
 
@@ -119,17 +123,17 @@ theorem Sim2.widen {c : Ctx} {n nS : Nat} {prog : List Insn} {lo hi lo' hi' : Na
     (h : Sim2 c n nS prog lo hi bal cm f a b) (h1 : lo' ≤ lo) (h2 : hi ≤ hi') : Sim2 c n nS prog lo' hi' bal cm f a b := by
   intro st aux astk X succ failA hg hl hsucc hf hs
   exact h st aux astk X succ failA hg hl hsucc hf
-    (fun r hr aux' junk S acc hag hb hS hacc => hs r hr aux' junk S acc (hag.mono h1 h2) hb hS hacc)
+    (fun l1 r l2 hsp hpass aux' junk S acc hag hb hS hacc => hs l1 r l2 hsp hpass aux' junk S acc (hag.mono h1 h2) hb hS hacc)
 
 /-- balanced code is in particular code (the continuation just gets `junk = []`) -/
 theorem Sim2.unbal {c : Ctx} {n nS : Nat} {prog : List Insn} {lo hi : Nat} {bal cm : Bool} {f : St → List St} {a b : Nat}
     (h : Sim2 c n nS prog lo hi true cm f a b) : Sim2 c n nS prog lo hi bal cm f a b := by
   intro st aux astk X succ failA hg hl hsucc hf hs
   exact h st aux astk X succ failA hg hl hsucc hf
-    (fun r hr aux' junk S acc hag hb hS hacc => by
+    (fun l1 r l2 hsp hpass aux' junk S acc hag hb hS hacc => by
       have hj : junk = [] := hb rfl
       subst hj
-      exact hs r hr aux' [] S acc hag (fun _ => rfl) hS hacc)
+      exact hs l1 r l2 hsp hpass aux' [] S acc hag (fun _ => rfl) hS hacc)
 
 /-- code proved for parametric continuations works in a committing context -/
 theorem Sim2.toCommit {c : Ctx} {n nS : Nat} {prog : List Insn} {lo hi : Nat} {bal cm : Bool} {f : St → List St} {a b : Nat}
@@ -137,13 +141,17 @@ theorem Sim2.toCommit {c : Ctx} {n nS : Nat} {prog : List Insn} {lo hi : Nat} {b
   intro st aux astk X succ failA hg hl hsucc hf hs
   exact h st aux astk X succ failA hg hl (by simpa [SuccOK] using hsucc.par) hf hs
 
+/-- the pc range may be enlarged -/
+theorem mem_split {α : Type} {x : α} {l : List α} (h : x ∈ l) : ∃ l1 l2, l = l1 ++ x :: l2 := List.append_of_mem h
+
 /-! ## Structural rules -/
 
 theorem Sim2.nil (c : Ctx) (n nS : Nat) (prog : List Insn) (lo hi : Nat) (bal cm : Bool) (a : Nat) :
     Sim2 c n nS prog lo hi bal cm (fun st => [st]) a a := by
   intro st aux astk X succ failA hg hl hsucc hf hs
   simp only [List.foldr_cons, List.foldr_nil]
-  have := hs st (by simp) aux [] [] failA (AuxAgree.refl _ _ _ _) (fun _ => rfl) (by simp) (by simpa using hf)
+  have := hs [] st [] rfl (fun _ => rfl) aux [] [] failA (AuxAgree.refl _ _ _ _) (fun _ => rfl) (by simp)
+    (fun hp => by simpa using hf (by simpa using hp))
   simpa using this
 
 /-- sequencing: `f` owns `[lo, mid)`, `g` owns `[mid, hi)` -/
@@ -154,19 +162,28 @@ theorem Sim2.seq {c : Ctx} {n nS : Nat} {prog : List Insn} {lo mid hi : Nat} {ba
   intro st aux astk X succ failA hg hl hsucc hf hs
   rw [foldr_flatMap]
   apply h1 st aux astk X (fun r acc => (g r).foldr succ acc) failA hg hl
-    (by simpa [SuccOK] using hsucc.par.foldr g) hf
-  intro r1 hr1 aux1 junk1 S1 acc1 hag1 hb1 hS1 hf1
+    (by simpa [SuccOK] using hsucc.par.foldr g)
+    (fun hp => hf (fun acc => by rw [foldr_flatMap]; exact hp acc))
+  intro l1 r1 l2 hsp1 hpass1 aux1 junk1 S1 acc1 hag1 hb1 hS1 hf1
   have hl1 : n + aux1.length = nS := by rw [hag1.1]; exact hl
+  have hr1 : r1 ∈ f st := by rw [hsp1]; simp
   apply h2 r1 aux1 (junk1 ++ astk) (S1 ++ X) succ acc1 (hk st r1 hg hr1) hl1 hsucc hf1
-  intro r2 hr2 aux2 junk2 S2 acc2 hag2 hb2 hS2 hf2
-  have := hs r2 (List.mem_flatMap.mpr ⟨r1, hr1, hr2⟩) aux2 (junk2 ++ junk1) (S2 ++ S1) acc2
+  intro m1 r2 m2 hsp2 hpass2 aux2 junk2 S2 acc2 hag2 hb2 hS2 hf2
+  have hsplit : (f st).flatMap g = (l1.flatMap g ++ m1) ++ r2 :: (m2 ++ l2.flatMap g) := by
+    rw [hsp1, List.flatMap_append, List.flatMap_cons, hsp2]
+    simp [List.append_assoc]
+  have hpass : ∀ acc, (l1.flatMap g ++ m1).foldr succ acc = acc := by
+    intro acc
+    rw [List.foldr_append, hpass2, foldr_flatMap]
+    exact hpass1 acc
+  have := hs (l1.flatMap g ++ m1) r2 (m2 ++ l2.flatMap g) hsplit hpass aux2 (junk2 ++ junk1) (S2 ++ S1) acc2
     (hag1.trans hag2 hle1 hle2)
     (fun hb => by rw [hb1 hb, hb2 hb]; rfl)
     (fun br hbr => by
       rcases List.mem_append.mp hbr with h | h
       · have := hS2 br h; omega
       · have := hS1 br h; omega)
-    (by simpa [List.append_assoc] using hf2)
+    (fun hp => by simpa [List.append_assoc] using hf2 hp)
   simpa [List.append_assoc] using this
 
 /-- a single always-succeeding instruction that maps the capture state and leaves the rest alone -/
@@ -178,7 +195,8 @@ theorem Sim2.step1 {c : Ctx} {n nS : Nat} {prog : List Insn} {lo hi : Nat} {bal 
   intro st aux astk X succ failA hg hl hsucc hf hs
   simp only [List.foldr_cons, List.foldr_nil]
   apply Big2.step _ _ _ _ _ _ _ (hstep st aux astk X hg hl)
-  have := hs (upd st) (by simp) aux [] [] failA (AuxAgree.refl _ _ _ _) (fun _ => rfl) (by simp) (by simpa using hf)
+  have := hs [] (upd st) [] rfl (fun _ => rfl) aux [] [] failA (AuxAgree.refl _ _ _ _) (fun _ => rfl) (by simp)
+    (fun hp => by simpa using hf (by simpa using hp))
   simpa using this
 
 /-- a single instruction that either advances (one result) or fails (no result) -/
@@ -191,12 +209,13 @@ theorem Sim2.test1 {c : Ctx} {n nS : Nat} {prog : List Insn} {lo hi : Nat} {bal 
   intro st aux astk X succ failA hg hl hsucc hf hs
   have h := hstep st aux astk X hg hl
   by_cases hc : cond st = true
-  · simp only [hc, ↓reduceIte, List.foldr_cons, List.foldr_nil] at h ⊢
+  · simp only [hc, ↓reduceIte, List.foldr_cons, List.foldr_nil] at h hf hs ⊢
     apply Big2.step _ _ _ _ _ _ _ h
-    have := hs (upd st) (by simp [hc]) aux [] [] failA (AuxAgree.refl _ _ _ _) (fun _ => rfl) (by simp) (by simpa using hf)
+    have := hs [] (upd st) [] rfl (fun _ => rfl) aux [] [] failA (AuxAgree.refl _ _ _ _) (fun _ => rfl) (by simp)
+      (fun hp => by simpa using hf (by simpa using hp))
     simpa using this
-  · simp only [hc, Bool.false_eq_true, ↓reduceIte, List.foldr_nil] at h ⊢
-    exact Big2.step _ _ _ _ _ _ _ h hf
+  · simp only [hc, Bool.false_eq_true, ↓reduceIte, List.foldr_nil] at h hf ⊢
+    exact Big2.step _ _ _ _ _ _ _ h (hf (fun _ => trivial))
 
 /-- alternation of two pieces of code: `Split(a+1, m+1); <f>; Jmp b; <g>` with `<f>` at `[a+1, m)` -/
 theorem Sim2.alt2 {c : Ctx} {n nS : Nat} {prog : List Insn} {lo hi : Nat} {bal cm : Bool} {f g : St → List St} {a m b : Nat}
@@ -211,22 +230,42 @@ theorem Sim2.alt2 {c : Ctx} {n nS : Nat} {prog : List Insn} {lo hi : Nat} {bal c
     simp [sstep, hsplit]
   apply Big2.step _ _ _ _ _ _ _ hstep
   apply h1 st aux astk (⟨m + 1, st.ix, unview st.slots ++ aux, astk⟩ :: X) succ _ hg hl hsucc
-  · apply Big2.failPop
-    exact h2 st aux astk X succ failA hg hl hsucc hf
-      (fun r hr aux' junk S acc hag hb hS hacc =>
-        hs r (List.mem_append_right _ hr) aux' junk S acc hag hb (fun br hbr => by have := hS br hbr; omega) hacc)
-  · intro r hr aux' junk S acc hag hb hS hacc
+  · -- failing into the pushed branch runs the second alternative (only reached if `f` passes through)
+    intro hpf
+    apply Big2.failPop
+    exact h2 st aux astk X succ failA hg hl hsucc
+      (fun hpg => hf (fun acc => by rw [List.foldr_append, hpg, hpf]))
+      (fun l1 r l2 hsp hpass aux' junk S acc hag hb hS hacc =>
+        hs (f st ++ l1) r l2 (by show f st ++ g st = _; rw [hsp, List.append_assoc]) (fun acc => by rw [List.foldr_append, hpass, hpf])
+          aux' junk S acc hag hb (fun br hbr => by have := hS br hbr; omega) hacc)
+  · intro l1 r l2 hsp hpass aux' junk S acc hag hb hS hacc
     have hj : sstep c prog nS m r.ix (unview r.slots ++ aux') (junk ++ astk)
           (S ++ ⟨m + 1, st.ix, unview st.slots ++ aux, astk⟩ :: X) =
         some (.run b r.ix (unview r.slots ++ aux') (junk ++ astk) (S ++ ⟨m + 1, st.ix, unview st.slots ++ aux, astk⟩ :: X)) := by
       simp [sstep, hjmp]
     apply Big2.step _ _ _ _ _ _ _ hj
-    have := hs r (List.mem_append_left _ hr) aux' junk (S ++ [⟨m + 1, st.ix, unview st.slots ++ aux, astk⟩]) acc hag hb
+    have := hs l1 r (l2 ++ g st) (by show f st ++ g st = _; rw [hsp]; simp [List.append_assoc]) hpass aux' junk
+      (S ++ [⟨m + 1, st.ix, unview st.slots ++ aux, astk⟩]) acc hag hb
       (fun br hbr => by
         rcases List.mem_append.mp hbr with h | h
         · have := hS br h; omega
         · simp only [List.mem_singleton] at h; subst h; simp only; omega)
-      (by simpa [List.append_assoc] using hacc)
+      (fun hp => by simpa [List.append_assoc] using hacc hp)
     simpa [List.append_assoc] using this
+
+/-- the previous, stronger-premise form (continuation available for every result, failure evidence
+    unconditional) is a consequence: convenient at the top level -/
+theorem Sim2.apply_all {c : Ctx} {n nS : Nat} {prog : List Insn} {lo hi : Nat} {bal cm : Bool} {sm : St → List St} {a b : Nat}
+    (h : Sim2 c n nS prog lo hi bal cm sm a b)
+    (st : St) (aux astk : List Nat) (X : List SBranch) (succ : St → Ans → Ans) (failA : Ans)
+    (hg : st.Good c n) (hl : n + aux.length = nS) (hsucc : SuccOK cm succ)
+    (hf : Big2 c prog nS (.fail X) failA)
+    (hs : ∀ r, r ∈ sm st → ∀ (aux' junk : List Nat) (S : List SBranch) (acc : Ans),
+        AuxAgree n lo hi aux aux' → (bal = true → junk = []) → (∀ br ∈ S, a ≤ br.pc ∧ br.pc ≤ b) →
+        ((∀ acc', succ r acc' = acc') → Big2 c prog nS (.fail (S ++ X)) acc) →
+        Big2 c prog nS (.run b r.ix (unview r.slots ++ aux') (junk ++ astk) (S ++ X)) (succ r acc)) :
+    Big2 c prog nS (.run a st.ix (unview st.slots ++ aux) astk X) ((sm st).foldr succ failA) :=
+  h st aux astk X succ failA hg hl hsucc (fun _ => hf)
+    (fun l1 r l2 hsp _ aux' junk S acc hag hb hS hacc => hs r (by rw [hsp]; simp) aux' junk S acc hag hb hS hacc)
 
 end Fancy
